@@ -97,7 +97,7 @@ theorem buildLoop_spec (sel : Nat → Option Nat) : ∀ (k : Nat) (rest pre : Li
       · have hal' : (m.allocT d.triple).1 = false := by simpa using hal
         rw [ar hal']
         simp only [errAlloc_bne, if_true, hal', Bool.not_false, Bool.false_eq_true, if_false]
-        obtain ⟨_, d2, d3, d4⟩ := destroy_spec s d dcs (m.allocT d.triple).2 r.r2 hbd
+        obtain ⟨_, d2, d3, d4, _⟩ := destroy_spec s d dcs (m.allocT d.triple).2 r.r2 hbd
         refine ⟨d2, trivial, r.r1.frame' (fun b hb => d4 b (fun hm => r.disj b hb hm) (hbs b hb)), by rw [d3]; exact Nat.le_refl _, d4, ?_⟩
         simp
 
